@@ -465,8 +465,12 @@ class LinkLayer(Layer):
         # Free the previously instantiated L2CAP layer
         conn_layer = self.state.get_connection_l2cap(conn_handle)
         if conn_layer is not None:
-            # Mark GATT layer as disconnected
-            self.get_layer(conn_layer).get_layer("gatt").state.terminated = True
+            # Mark GATT layer as disconnected and let it drop what belongs to
+            # this connection (subscriptions, notification callbacks)
+            gatt = self.get_layer(conn_layer).get_layer("gatt")
+            gatt.state.terminated = True
+            if hasattr(gatt, 'on_terminated'):
+                gatt.on_terminated()
             self.destroy(self.get_layer(conn_layer))
 
         # Remove connection from our registered connections
